@@ -204,10 +204,7 @@ fn process_entry(c: &Corpus, e: &Entry, tier: Tier, seed: u64, known: &KnownFind
     let mut judge = |r: &mut EntryReport, kind: &str, site: &str, frame: &[u8], deep: bool, origin: Value| {
         crate::iso::trace_case(&|| json!({"entry": label, "corruption": kind, "site": site, "frame": vcommon::hex(frame), "origin": origin}));
         r.evals += 1;
-        if r.evals % 128 == 1 {
-            crate::iso::rebase_address_space_limit();
-        }
-        let o = ep.read_only(frame);
+        let o = crate::iso::with_decode_budget(|| ep.read_only(frame));
         let reached_fields = !matches!(&o, Outcome::Err { class: ErrClass::InvalidSize, .. } | Outcome::Err { class: ErrClass::UnknownOpcode { .. }, .. });
         if deep || reached_fields {
             r.distinct.insert(vcommon::fnv(format!("{}|{}|{}", label, site, kind).as_bytes()));
@@ -333,14 +330,17 @@ fn raw_bytes(c: &Corpus, ep_label: &str, tier: Tier, seed: u64, known: &KnownFin
     for bytes in &sweep {
         crate::iso::trace_case(&|| json!({"endpoint": ep_label, "frame": vcommon::hex(bytes)}));
         // the six copies of the header code: plain and decrypting reader of each flavour
-        let mut outs: Vec<(&'static str, Outcome)> = vec![("sync", ep.read_only(bytes))];
-        outs.push(("tokio", ep.read_async(Flavor::Tokio, bytes, &whole)));
-        outs.push(("async-std", ep.read_async(Flavor::Astd, bytes, &whole)));
-        for (n, fl) in [("sync-encrypted", Flavor::Sync), ("tokio-encrypted", Flavor::Tokio), ("async-std-encrypted", Flavor::Astd)] {
-            if let Some(o) = ep.read_encrypted_raw(fl, bytes) {
-                outs.push((n, o));
+        let outs: Vec<(&'static str, Outcome)> = crate::iso::with_decode_budget(|| {
+            let mut outs: Vec<(&'static str, Outcome)> = vec![("sync", ep.read_only(bytes))];
+            outs.push(("tokio", ep.read_async(Flavor::Tokio, bytes, &whole)));
+            outs.push(("async-std", ep.read_async(Flavor::Astd, bytes, &whole)));
+            for (n, fl) in [("sync-encrypted", Flavor::Sync), ("tokio-encrypted", Flavor::Tokio), ("async-std-encrypted", Flavor::Astd)] {
+                if let Some(o) = ep.read_encrypted_raw(fl, bytes) {
+                    outs.push((n, o));
+                }
             }
-        }
+            outs
+        });
         for (variant, o) in outs {
             r.evals += 1;
             r.count(&format!("header-sweep.{}.{}", variant, o.kind()));
@@ -361,7 +361,7 @@ fn raw_bytes(c: &Corpus, ep_label: &str, tier: Tier, seed: u64, known: &KnownFin
             return Ok(());
         }
         crate::iso::trace_case(&|| json!({"endpoint": ep_label, "frame": vcommon::hex(bytes)}));
-        let o = ep.read_only(bytes);
+        let o = crate::iso::with_decode_budget(|| ep.read_only(bytes));
         let mut r = rc.borrow_mut();
         r.evals += 1;
         r.count(&format!("raw.{}", o.kind()));
@@ -425,9 +425,9 @@ pub fn run(tier: Tier, replay: Option<String>) -> i32 {
             Err(_) => 2,
         };
     }
-    c.rule = "per message: structured corruptions of the encodings reached by directed enumeration, built from the model's trace - truncation at every field boundary and mid-field (header consistent and stale), every count/length/size field set to 0, 1, true+-1, 0x7f.., 0xff.., 2^16, 2^24, every enum/bool/flag/mask/date field set to out-of-range patterns, strings made invalid UTF-8 / unterminated / 255..300 bytes long with the body cut after each of the next fields, header size 0/<opcode/-1/+1/+1000/max, zlib payloads truncated/bit-flipped/garbage/declared huge/zero/small/bombs - then random bodies under a consistent header and raw byte strings per endpoint. Each case runs in an isolated worker (address-space limit = the worker's footprint, re-read every 128 cases, + 1.5 GiB; watchdog). Oracle: the call returns Ok or Err. Non-trivial = the corruption lies past the first field or the read got past the size window / opcode dispatch; distinct = (entry, corrupted site without indices, corruption kind).".into();
+    c.rule = "per message: structured corruptions of the encodings reached by directed enumeration, built from the model's trace - truncation at every field boundary and mid-field (header consistent and stale), every count/length/size field set to 0, 1, true+-1, 0x7f.., 0xff.., 2^16, 2^24, every enum/bool/flag/mask/date field set to out-of-range patterns, strings made invalid UTF-8 / unterminated / 255..300 bytes long with the body cut after each of the next fields, header size 0/<opcode/-1/+1/+1000/max, zlib payloads truncated/bit-flipped/garbage/declared huge/zero/small/bombs - then random bodies under a consistent header and raw byte strings per endpoint. Each case runs in an isolated worker (address-space limit during each decode call = the worker's footprint at that moment + 1.5 GiB, lifted again afterwards; watchdog). Oracle: the call returns Ok or Err. Non-trivial = the corruption lies past the first field or the read got past the size window / opcode dispatch; distinct = (entry, corrupted site without indices, corruption kind).".into();
     c.assume("a worker killed by its watchdog is reported as inconclusive (exit 2), never as a violation");
-    c.assume("memory budget per decode: 1.5 GiB beyond the footprint of the worker at that time (soft RLIMIT_AS, re-based on /proc/self/statm every 128 cases, so the encodings the harness holds do not count); a frame is at most 64 KiB (Vanilla/TBC) or 8 MiB (Wrath server)");
+    c.assume("memory budget per decode: 1.5 GiB beyond the footprint of the worker at that time (soft RLIMIT_AS set from /proc/self/statm around every decode call, so what the harness holds or builds in between does not count); a frame is at most 64 KiB (Vanilla/TBC) or 8 MiB (Wrath server)");
     let only = std::env::var("VERIF_ONLY").ok();
     let mut labels: Vec<String> = corpus.entries.iter().map(|e| e.label()).filter(|l| only.as_ref().map(|o| l.contains(o.as_str())).unwrap_or(true)).collect();
     if only.is_none() {
